@@ -87,6 +87,25 @@ class SeqCheck(Check):
             return ops
 
 
+def ts_variant(histories):
+    """the same histories on containers created with the THREADSAFE option (bit 1 of the option word):
+    single-threaded use must behave identically - same operations, same expected lines; what differs is
+    that every public function now really locks and unlocks around its body, errno reports included"""
+    out = []
+    for h in histories:
+        w = h[0].split()
+        if w[0] != "new":
+            out.append(list(h)); continue
+        if len(w) == 2:                     # new list|queue|stack|grow
+            head = "%s %s 1" % (w[0], w[1])
+        elif len(w) == 3:                   # new <kind> <opt>
+            head = "%s %s %d" % (w[0], w[1], int(w[2]) | 1)
+        else:                               # new <max> <objsize> <options>
+            head = "%s %s %s %d" % (w[0], w[1], w[2], int(w[3]) | 1)
+        out.append([head] + list(h[1:]))
+    return out
+
+
 def pack(histories):
     """flatten a list of histories (each a list of op lines starting with `new`) into one op list"""
     out = []
